@@ -9,7 +9,7 @@ import (
 func init() { register("C17", propC17) }
 
 func propC17(c *Ctx) {
-	c.Explanation = "Decides structural necessary conditions of wait-queue notification for all schedules: (Y1) the entry list and every entry's mask are accessed only with Queue.mu held; Notify and Events hold it (read mode) across the whole traversal including the callback calls and EventRegister/EventUnregister hold it in write mode, so no callback runs after an unregistration has returned; (Y2) in Notify the callback of an element is invoked under exactly two conditions - the element is in the list (traversal from Front by Next, no early exit) and mask&e.mask != 0 - and with that element as argument; no other condition (cache, flag) decides it; (Y3) EventRegister stores the mask then pushes the entry at the back in one critical section, EventUnregister removes exactly the given entry; (Y4) the channel callback is a non-blocking select send and NewChannelEntry allocates capacity 1, so a token stays until taken and notification never blocks; (Y5) ilist PushBack/Remove write both link directions and head/tail on the empty/non-empty branches. (Y6) package waiter never receives from a channel (closed-world scan incl. helpers): a token left by a completed Notify is taken only by the waiter. NOT decided: list shape invariants over histories of operations; exactly-once under concurrent re-registration of one entry."
+	c.Explanation = "Decides structural necessary conditions of wait-queue notification for all schedules: (Y1) the entry list and every entry's mask are accessed only with Queue.mu held; Notify and Events hold it (read mode) across the whole traversal including the callback calls and EventRegister/EventUnregister hold it in write mode, so no callback runs after an unregistration has returned; (Y2) in Notify the callback of an element is invoked under exactly two conditions - the element is in the list (traversal from Front by Next, no early exit) and mask&e.mask != 0 - and with that element as argument; no other condition (cache, flag) decides it; (Y3) EventRegister stores the mask then pushes the entry at the back in one critical section, EventUnregister removes exactly the given entry; (Y4) the channel callback is a non-blocking select send and NewChannelEntry allocates capacity 1, so a token stays until taken and notification never blocks; (Y5) ilist PushBack/Remove write both link directions and head/tail on the empty/non-empty branches. (Y6) package waiter never receives from a channel (closed-world scan incl. helpers): a token left by a completed Notify is taken only by the waiter. Y4 also requires the callback's send to be unconditional. NOT decided: list shape invariants over histories of operations; exactly-once under concurrent re-registration of one entry."
 	q := "(*waiter.Queue)."
 	y1 := c.Rule("Y1", "K4 lockset", "list and masks only under Queue.mu; callbacks run under the read lock", 8)
 	la := c.Locks()
@@ -76,6 +76,7 @@ func propC17(c *Ctx) {
 				n++
 				okSend := len(st.Args) == 2 && st.Args[0] == "blocking=false" && strings.HasPrefix(st.Args[1], "send ")
 				c.Check(okSend, y4, FuncName(fn)+"/nonblocking-send", c.pos(st.Instr), "select { case ch <- token: default: }", "the callback's channel operation can block or is not a send")
+				c.Check(len(st.Guards) == 0, y4, FuncName(fn)+"/send-unconditional", c.pos(st.Instr), "the token is offered on every call of the callback", "the token is offered only under ["+strings.Join(st.Guards, " && ")+"]: a notification that finds the condition false leaves no token, although Notify returned")
 			case "send":
 				c.Bad(y4, FuncName(fn)+"/plain-send", c.pos(st.Instr), "plain channel send blocks the notifier when the token is already there")
 			}
